@@ -183,6 +183,7 @@ fn library_case(ctx: &mut Ctx, idx: usize, kind: &'static str, n: usize) {
     if sha3_challenge(&bytes) != c {
         ctx.violation("challenge is not from_raw(SHA3-256(consumed bytes))", json!({"class": "challenge-not-sha3", "kind": kind}));
     }
+    let _ = crate::abacus::model_finish_matches(ctx, &bytes, &c);
     // what was hashed is exactly the model's atom list
     let toks = ctx.ask(&format!("transcript {}", obj.item()));
     ctx.evals += 1;
